@@ -476,3 +476,44 @@ def run(ck):
           "%d library functions reachable from the read path, none drains the write queue" % len(seen14) if hit14 is None else
           "the read path reaches the write drain (%s): a queued write -- the idle-time-out answer, for one -- is completed, and its continuation run, in the middle of reading from the same connection"
           % hit14[2][-1], path=(hit14[2] if hit14 else None))
+
+    # ---------------- R15: a readable event is not swallowed by the writable arm ----------------
+    ck.rule("C08-R15", "C dominance + must-pass-through",
+            "peer sockets are registered edge-triggered and one ready entry can carry readable and writable (and error / hang-up) at once: "
+            "the dispatcher of Transport::onReady either looks at readable first, or -- where writable is tested first -- re-arms the "
+            "descriptor (Reactor::modifyFd, i.e. EPOLL_CTL_MOD, which makes the kernel report the pending input again) on the writable arm. "
+            "An entry handled as a write only, without a re-arm, loses its readable / hang-up edge for good: the reset of a client with "
+            "queued output is never seen and the connection is never released", 1)
+    g15 = lib.single(prog, T + "onReady")
+    ENTRY = "c:Pistache::Aio::FdSet::Entry::"
+    tests = lambda nm: [b for b in g15.blocks.values() if b.term and b.term.get("k") in ("if", "cond", "while") and (ENTRY + nm) in (b.term.get("refs") or [])]
+    wbs, rbs = tests("isWritable"), tests("isReadable")
+    ck.require(wbs and rbs, "isWritable / isReadable tests not found in Transport::onReady (writable %d, readable %d)" % (len(wbs), len(rbs)))
+    dom15 = cfg.dominators(g15)
+    summ15 = lib.Summaries(prog)
+    rearms = summ15.lift_must(lambda ev: ev["k"] == "call" and (ev.get("callee") or "") == "Pistache::Aio::Reactor::modifyFd", "re-arm")
+    heads15 = {x.id for x in g15.blocks.values() if x.term and x.term.get("k") == "rangefor"} | {h for h, _b in cfg.natural_loops(g15)}
+    for b in wbs:
+        wk = 1 if b.term.get("neg") else 0
+        if b.succs[wk] is None:
+            continue
+        # was readable looked at before this test is reached?
+        readable_first = any(r.id in dom15.get(b.id, ()) and r.id != b.id for r in rbs) or \
+            any((ENTRY + "isReadable") in (x.term.get("refs") or []) for x in [b])
+        unarmed = []
+
+        def step15(st, ev):
+            return None if rearms(ev) else st
+
+        def edge15(st, blk, k, succ):
+            if succ in heads15:
+                unarmed.append(blk.id)
+                return None
+            return st
+        if not readable_first:
+            exits15, _ = cfg.run_automaton(g15, 0, step15, edge=edge15, start=b.succs[wk])
+            unarmed += [x.block for x in exits15 if x.kind != "throw"]
+        ck.ob("C08-R15", "onReady/readable-not-shadowed@%s" % b.term.get("l"), readable_first or not unarmed, "%s:%s" % (g15.file, b.term.get("l")), g15,
+              "readable is tested before writable" if readable_first else ("the writable arm re-arms the descriptor on every path" if not unarmed else
+              "isWritable() is tested before isReadable() and its arm can finish (block %s) without Reactor::modifyFd: an entry that is both "
+              "readable and writable is handled as a write only and its input / hang-up edge is lost" % unarmed[0]))
